@@ -8,6 +8,8 @@ import PgmVerif.Model.Search
 import Mathlib.Algebra.Order.Field.Rat
 import Mathlib.Tactic.Ring
 import Mathlib.Tactic.Linarith
+import Mathlib.Algebra.BigOperators.Group.List.Basic
+import Mathlib.Algebra.Order.Ring.Rat
 namespace PgmVerif
 open Relation
 
@@ -642,5 +644,19 @@ example : (DG.mk [0, 1, 2] []).WFG ∧ Acyclic (DG.mk [0, 1, 2] []).edges :=
     black-box streams run the implementation are the ones read from the source -/
 theorem C11_defaults_tie :
     Generated.hcDefaults = [("epsilon", 1, 10000), ("max_iter", 1000000, 1), ("tabu_length", 100, 1)] := by decide
+
+
+theorem sum_scale (c : Rat) : ∀ es : List ((Var × Var) × Rat),
+    (es.map (fun e => c * e.2)).sum = c * (es.map (·.2)).sum
+  | [] => by simp
+  | e :: es => by simp [sum_scale c es, mul_add]
+
+/-- a weight function on another positive scale ranks all edge sets (hence all spanning trees) the same way: the tree stream hands
+    the implementation `c * w` and the specification `w` -/
+theorem C11_tree_scale_invariant (c : Rat) (hc : 0 < c) (t1 t2 : List ((Var × Var) × Rat)) :
+    (t1.map (·.2)).sum ≤ (t2.map (·.2)).sum ↔
+    (t1.map (fun e => c * e.2)).sum ≤ (t2.map (fun e => c * e.2)).sum := by
+  rw [sum_scale, sum_scale]
+  exact (mul_le_mul_iff_of_pos_left hc).symm
 
 end PgmVerif
